@@ -1013,7 +1013,10 @@ func (vc *VC) applyContract(fr *Frame, st *State, con *Contract, fn *ssa.Functio
 		if lbl == "" {
 			lbl = fmt.Sprintf("%d", i)
 		}
-		vc.addObl(fr, st, "pre", con.Name+"/"+lbl, g, r, pos)
+		if o := vc.addObl(fr, st, "pre", con.Name+"/"+lbl, g, r, pos); o != nil && len(o.Props) == 0 {
+			// a callee's precondition serves the properties the callee's contract is tagged with
+			o.Props = con.Props
+		}
 		vc.q.Assert(Implies(st.reach, g))
 	}
 	// frame
